@@ -161,6 +161,9 @@ func main() {
 // composeProps: C01 and C02 state theorems about the models of the individual consumers, so their runs also
 // re-check the correspondence of those models (capped per model, see corrCap).
 func composeProps() {
+	if c03xHook != nil {
+		c03xHook()
+	}
 	add := func(target string, from ...string) {
 		t, ok := props[target]
 		if !ok {
